@@ -243,6 +243,21 @@ def c20_texts(rng, tier):
                 pad = target - n
                 lines.append(b'#' + b'.' * max(pad - 2, 0) + b'\n' if pad >= 2 else b' ' * pad)
                 out.append(b''.join(lines) + probe + b'\ntail = 1;\n')
+    # multi-byte sequences whose two halves may land in different refills (CR LF inside a string, in white space and in an
+    # include path; an escape; a two-character comment opener): EVERY offset across the first boundary, in both tiers
+    pairs = [b's = "ab\r\ncd";', b'v = 1;\r\nw = 2;\r\n', b's = "a\\nb\\x41";', b'/* c */ v = 1; // d\r\n', b'@include "c20inc.cfg"\r\n']
+    for probe in pairs:
+        for d in range(-12, 4):
+            target = 8192 + d
+            lines = []
+            n = 0
+            i = 0
+            while n < target - 40:
+                l = b'k%05d = %d;\n' % (i, i * 7)
+                lines.append(l); n += len(l); i += 1
+            pad = target - n
+            lines.append(b'#' + b'.' * max(pad - 2, 0) + b'\n' if pad >= 2 else b' ' * pad)
+            out.append(b''.join(lines) + probe + b'\ntail = 1;\n')
     # single tokens that fill the scanner buffer exactly (string body, run of blanks, comment, name)
     for n in ([16380, 16381, 16382, 16383, 16384, 16385, 16386, 32766, 32767, 32768] if tier == 'thorough' else [16382, 16383, 16384, 32767]):
         out.append(b'a = 1;\ns = "' + b'q' * n + b'";\nb = 2;\n')
@@ -258,7 +273,7 @@ def sess_c20(texts, groups):
         impl.do('mkfile %s %s' % (hexs(b'c20inc.cfg'), hexs(b'inc = 1;\n')))
         for text in texts:
             idx = []
-            for e in ('string', 'stream', 'chunked', 'eintr', 'file'):
+            for e in ('string', 'stream', 'chunked', 'eintr', 'file', 'fifo'):
                 # every entry point starts from the same used state: a configuration holding the tree and the error record
                 # of an earlier, different, failing read ("same result" includes not inheriting anything from it)
                 impl.do('read_string ' + hexs(b'left = "over";\nstale = ;\n'))
@@ -271,6 +286,9 @@ def sess_c20(texts, groups):
                     impl.do('read_stream ' + hexs(text))
                 elif e == 'chunked':
                     impl.do('read_chunked %d %s' % (rng.choice([1, 7, 4095, 4096, 8191, 8192, 8193, rng.range(1, 9000)]), hexs(text)))
+                elif e == 'fifo':
+                    # config_read_file on something that is not a regular file: a FIFO of the same name delivering the bytes
+                    impl.do('read_fifo ' + hexs(text))
                 else:
                     impl.do('mkfile %s %s' % (hexs(b'in.cfg'), hexs(text)))
                     impl.do('read_file ' + hexs(b'in.cfg'))
@@ -426,7 +444,10 @@ C18_FRAG = [b'true', b'TRUE', b'truex', b'false', b'fAlSe0', b'name', b'a-b_c*',
             b'1.5', b'.5', b'5.', b'.', b'1e5', b'1e', b'1e+', b'1.e5', b'-.5e-3', b'1.5L', b'"s"', b'"a\\n\\x41\\q\\""', b'"', b'"\\', b'""', b'=', b':', b',', b';', b'{', b'}',
             b'[', b']', b'(', b')', b'#c', b'//c', b'/*c*/', b'/*', b'*/', b'/', b'\n', b' ', b'\t', b'\r', b'\f', b'\a', b'\b', b'\v', b'@', b'@include "', b'\n@include "x"',
             b'\n  @include\t"', b'\\', b'-', b'+', b'_', b'\x01', b'\x7f', b'\x80', b'\xff', b'e', b'L', b'x', b'0', b'00', b'08', b'9223372036854775808', b'0xFFFFFFFFF',
-            b'"\\a\\b\\v\\f\\t\\r"', b'"\\x4"', b'"\\xgg"', b'"\\X41"']
+            b'"\\a\\b\\v\\f\\t\\r"', b'"\\x4"', b'"\\xgg"', b'"\\X41"',
+            # multi-byte sequences editors and platforms produce (byte-order marks, CR LF, NEL, NBSP): they begin no token
+            b'\xef\xbb\xbf', b'\n\xef\xbb\xbf', b'\xef\xbb', b'\xbb\xbf', b'\xfe\xff', b'\xff\xfe', b'\r\n', b'\n\r', b'\xc2\x85', b'\xc2\xa0',
+            b'\xe2\x80\xa8', b'"\r\n"', b'\x1a']
 
 def c18_texts(rng, n):
     out = []
